@@ -372,4 +372,16 @@ example : (exec true 3 (run true 3 [] [sharedOpen 1, sharedOpen 2, .lock 1 (some
 
 example : (exec true 3 (run true 3 [] [.open 0 1 .R .none .none]) (.open 0 2 .O .none .none)).2 = 55 := by decide
 
+/-! Three handles on one file (seed C26c): an OUTPUT/APPEND handle that holds no lock does not hide the
+record locks of the other handles from GET — `locked_record_read_denied_partial` only looks at the mode of
+the handle that holds the lock (`g`), whatever else is open and in whatever order. -/
+example : (exec true 3 (run true 3 [] [.open 0 1 .O .none .none, .open 0 2 .R .none .none,
+    .open 0 3 .R .none .none, .lock 2 (some 2) (some 3)]) (.get 3 (some 2))).2 = 70 := by decide
+example : (exec true 3 (run true 3 [] [.open 0 3 .A .none .none, .open 0 1 .R .none .none,
+    .open 0 2 .R .none .none, .lock 1 (some 2) (some 3)]) (.get 2 (some 3))).2 = 70 := by decide
+example : (exec true 3 (run true 3 [] [.open 0 1 .O .none .none, .open 0 2 .I .none .none,
+    .open 0 3 .R .none .none, .lock 2 (some 5) (some 6)]) (.get 3 (some 1))).2 = 70 := by decide
+example : (exec true 3 (run true 3 [] [.open 0 1 .O .none .none, .open 0 2 .R .none .none,
+    .open 0 3 .R .none .none, .lock 2 (some 2) (some 3)]) (.get 3 (some 4))).2 = 0 := by decide
+
 end PcbV.C26
